@@ -281,6 +281,37 @@ HAND = [
 ]
 
 
+# grammars aimed at one mechanism each (terminals, stack discipline in failed attempts, predicates over the stack,
+# check-path-only constructs reached through atomic rules, skip definitions of every shape, zero-width tokens)
+TARGETED = [
+    # skip-until with several terminators (the optimizer turns (!(a|b) ~ ANY)* into Skip([a, b])), earliest occurrence wins
+    'until = @{ (!("a" | "b") ~ ANY)* }\nuntil_end = @{ (!("a" | "b") ~ ANY)* ~ "b" }\nlong = @{ (!("ab" | "b" | "ba") ~ ANY)* ~ ANY? }',
+    'quoted = @{ "\'" ~ (!("%\'" | "\'") ~ ANY)* ~ "\'" }\nline = @{ (!NEWLINE ~ ANY)* }\ncm = @{ "/*" ~ (!"*/" ~ ANY)* ~ "*/" }',
+    # a failed alternative / optional / iteration that pops an old entry and pushes another one
+    'swap_opt = ${ PUSH("a") ~ (DROP ~ PUSH("b") ~ "!")? ~ "b"? ~ POP }\nswap_choice = ${ PUSH("a") ~ (POP ~ PUSH("b") ~ "!" | "a" ~ "b") ~ POP }\n'
+    'swap_rep = ${ PUSH("a") ~ (DROP ~ PUSH("a" | "b") ~ "!")* ~ POP }\nswap_at = @{ PUSH("a") ~ (POP ~ PUSH("b") ~ "!")? ~ PEEK ~ "b"? }',
+    # predicates over the stack, nested
+    'dn = ${ PUSH("a") ~ !!POP ~ POP ~ EOI }\nns = ${ PUSH("a") ~ !(!POP ~ ANY) ~ POP }\nnd = ${ PUSH("a") ~ !(!DROP ~ ANY) ~ PEEK? }\n'
+    'pp = ${ PUSH("a") ~ &(POP ~ "b") ~ PEEK ~ "b" }\nnp = ${ PUSH("a") ~ PUSH("b") ~ !(DROP ~ PEEK) ~ ANY* }',
+    # DROP / POP / POP_ALL followed by a stack read, also through the check path (atomic rule, negative predicate)
+    'dp = { PUSH("a") ~ PUSH("b") ~ DROP ~ PEEK }\ndpa = @{ PUSH("a") ~ PUSH("b") ~ DROP ~ PEEK }\ndd = { PUSH("a") ~ DROP ~ DROP }\n'
+    'ddA = @{ PUSH("a") ~ DROP ~ DROP? ~ "b" }\npa = @{ PUSH("a") ~ PUSH("b") ~ POP_ALL ~ PEEK? ~ "a" }\nsl = @{ PUSH("a") ~ PUSH("b") ~ PEEK[-2..] ~ PEEK[-2..-1] ~ PEEK[0..-2]? }',
+    # NEWLINE flavours on both paths
+    'two = { "a" ~ NEWLINE ~ "b" }\ntwoA = @{ "a" ~ NEWLINE ~ "b" }\nlines = { ("a" ~ NEWLINE)* }\nlinesA = @{ ("a" ~ NEWLINE)* ~ "a"? }',
+    # skip given back after a failed iteration, on both paths, in and under atomic rules
+    'WHITESPACE = _{ " " }\nitem = { "x" }\nlist = !{ item* }\nlist1 = !{ item+ }\nbracket = @{ "[" ~ list ~ "]" }\ntight = @{ list ~ "!" }\nouter = { bracket ~ "." }\ncnt = !{ item{2,3} ~ "." }\ncntA = @{ cnt ~ "!" }',
+    # COMMENT without WHITESPACE, WHITESPACE without COMMENT, non-silent ones followed by tokens
+    'COMMENT = _{ "/*" ~ (!"*/" ~ ANY)* ~ "*/" }\na = { "a" }\nb = { "b" }\npair = { a ~ b }\nmany = { a* }\nagain = !{ a ~ b }\nreenter = @{ again }',
+    'WHITESPACE = @{ " " }\nCOMMENT = @{ "#" ~ (\'a\'..\'c\')* ~ "#" }\na = { "a" }\nb = { "b" }\npair = { a ~ b }\nlist = { a* }\nfile = { SOI ~ a ~ b ~ EOI }',
+    # zero-width tokens under an optional
+    'call = { name ~ "(" ~ args? ~ ")" }\nname = { "f" }\nargs = { (arg ~ ("," ~ arg)*)? }\narg = { "1" }\ntail = { "x"* }\nm = { "y" ~ tail? }\nend = { "a" ~ EOI? }',
+    # insensitive / ranges / multi-byte
+    'kw = @{ ^"ab" }\nwords = @{ (^"from" | ANY)* }\nrg = @{ \'b\'..\'d\' ~ \'a\'..\'a\' }\nmb = @{ "é" ~ "=" ~ "éé" }',
+    # SOI / EOI inside, optional sign at SOI
+    'file = { SOI ~ "b"+ ~ EOI }\nnum = @{ (SOI ~ "-")? ~ ASCII_DIGIT* }\ninner = @{ !SOI ~ ANY }\nmid = { "a" ~ EOI ~ "b"? }',
+]
+
+
 def repo_grammars():
     out = []
     for p in ["derive/tests/grammar.pest", "generator/tests/syntax.pest", "generator/tests/grammar.pest", "generator/tests/test.pest"]:
